@@ -196,6 +196,10 @@ impl Engine for HandleTableEngine {
     }
 
     fn run(&mut self, case: &Case, obs: &mut Obs) -> Verdict {
+        // element types without drop glue take other paths through clear / Drop
+        if let Err((what, d)) = crate::plain::handletable_plain(case.ops.len() as u64 * 7919 + case.init_cap as u64 * 31 + case.universe.iter().map(|x| *x as u64).sum::<u64>(), obs) {
+            return Verdict::violation(format!("C13:{what}"), d);
+        }
         if case.proxy_alloc {
             let mk = || {
                 let a = CaoLangAllocator::new(std::ptr::null_mut(), 1 << 30);
